@@ -1,7 +1,73 @@
 """C17 -- inspecting or searching a position never changes it or the game history.
-proof: Props/C17.v; tie + search for a failing input: checks/searchcore.py (engine vs extracted model on full hook traces; extracted monitors on the engine's answers)."""
+proof: Props/C17.v; tie + search for a failing input: checks/searchcore.py (engine vs extracted model on full hook traces; extracted monitors on the engine's answers),
+and, at the level of the UCI commands (go, perft, eval, d, isready, ...), sessions through the REAL main loop: the position displayed before and after the
+command must be the same (all six FEN fields and the key), and a later search must print what it prints when the command is left out."""
+import re, json
 from checks import searchcore
+import vlib
+
+POS = ['position startpos', 'position startpos moves e2e4 e7e5 g1f3', 'position fen r3k2r/p1ppqpb1/bn2pnp1/3PN3/1p2P3/2N2Q1p/PPPBBPPP/R3K2R w KQkq - 0 1',
+       'position fen 8/2p5/3p4/KP5r/1R3p1k/8/4P1P1/8 w - - 0 10', 'position startpos moves g1f3 g8f6 f3g1 f6g8 g1f3 g8f6',
+       'position fen rnbqkbnr/ppp1pppp/8/8/3pP3/8/PPPP1PPP/RNBQKBNR b KQkq e3 0 3']
+INSPECT = ['perft 1', 'perft 2', 'perft 3', 'eval', 'd', 'isready', 'uci', 'stop', 'foo bar']
+LATE = 20000
+
+def displays(out):
+    blocks = []; lines = out.split('\n'); i = 0
+    while i < len(lines):
+        if '┌' in lines[i]:
+            j = i
+            while j < len(lines) and 'Zobrist' not in lines[j]: j += 1
+            blocks.append('\n'.join(l.rstrip() for l in lines[i:j + 1])); i = j + 1
+        else: i += 1
+    return blocks
+
+def last_search(out):
+    """the lines of the last search of the transcript (time masked)"""
+    lines = out.split('\n'); idx = [i for i, l in enumerate(lines) if l.startswith('@READ go')]
+    if not idx: return None
+    res = []
+    for l in lines[idx[-1] + 1:]:
+        if l.startswith('@'): continue
+        if l.startswith('info ') or l.startswith('bestmove'): res.append(re.sub(r' time \d+', ' time T', l))
+        if l.startswith('bestmove'): break
+    return res
+
+def uci_level(ctx):
+    ran = 0; seen = set()
+    for pos in POS:
+        ref = ctx.engine_session([(0, pos), (0, 'd'), (0, 'd'), (0, 'go depth 3'), (LATE, 'quit')], extra=7, timeout=120)
+        refs = last_search(ref)
+        scripts = []
+        for cmd in INSPECT:
+            scripts.append((cmd, [(0, pos), (0, 'd'), (0, cmd), (0, 'd'), (0, 'go depth 3'), (LATE, 'quit')], True))
+        for cmd, extra_lines in [('go depth 1', []), ('go depth 3', []), ('go infinite', [(3, 'stop')]), ('go movetime 0', [])]:
+            scripts.append((cmd, [(0, pos), (0, 'd'), (0, cmd)] + extra_lines + [(LATE, 'd'), (0, 'quit')], False))
+        for cmd, script, later in scripts:
+            out = ctx.engine_session(script, extra=7, timeout=120); ran += 1
+            ds = displays(out)
+            prob = None
+            if len(ds) < 2 or '@TIMEOUT' in out: prob = ('C17:uci-session-broke', 'the session did not display the position twice (panic, hang or missing output)')
+            elif ds[0] != ds[-1]: prob = ('C17:uci-command-changed-position', f'the position displayed after `{cmd}` differs from the one displayed before it')
+            elif later and last_search(out) != refs: prob = ('C17:uci-command-changed-later-search', f'after `{cmd}` the next search prints something else than without it (history or bookkeeping changed)')
+            if prob and prob[0] not in seen:
+                seen.add(prob[0])
+                ctx.violation(prob[0], prob[1], {'script (delay_in_polls line)': [f'{d} {l}' for d, l in script], 'display_before': ds[0] if ds else None, 'display_after': ds[-1] if ds else None,
+                                                 'search_after': last_search(out), 'search_without_the_command': refs if later else None, 'transcript_tail': out[-1500:]})
+    ctx.cov['uci_level_sessions_through_the_real_main_loop'] = ran
+    ctx.cov['evaluations'] = ctx.cov.get('evaluations', 0) + ran
+
 def run(ctx):
     searchcore.run_property(ctx, 'Props/C17.v', ['C17:'],
         'a search changed the position or the recorded history, or left ply / repetition index displaced')
-def replay(ctx, path): return searchcore.replay_search(ctx, path, 'Props/C17.v')
+    if ctx.engine is not None:
+        uci_level(ctx)
+def replay(ctx, path):
+    j = json.load(open(path))
+    sc = j.get('replay', {}).get('script (delay_in_polls line)')
+    if sc:
+        ctx.build_engine(); s = []
+        for x in sc:
+            d, l = x.split(' ', 1); s.append((int(d), l))
+        print(ctx.engine_session(s, extra=7)); return 0
+    return searchcore.replay_search(ctx, path, 'Props/C17.v')
